@@ -217,7 +217,7 @@ def run_all(repo: str, props: list[str] | None = None, names: list[str] | None =
         idxs.append(i)
     if not idxs:
         return []
-    with Pool(min(jobs, len(idxs))) as pool:
+    with Pool(min(jobs, len(idxs)), maxtasksperchild=1) as pool:  # one variant per process: nothing is carried from one analysed tree to the next
         return pool.map(run_variant, [(repo, i, props) for i in idxs], chunksize=1)
 
 
